@@ -359,6 +359,36 @@ func c19Events(nlive int) []c19ev {
 			}
 			return -1, nil, true
 		})
+		un("DotRefused", func(w *c19world, t *tensor.Dense) (int, [][]int, bool) {
+			// refusal paths of operations that carry options: an increment / reuse tensor of an element type the operation
+			// does not take, operands that do not fit. Whatever was borrowed for the call goes back exactly once
+			if i != 0 {
+				return -1, nil, false
+			}
+			x := tensor.New(tensor.WithShape(2), tensor.WithBacking([]float64{1, 2}))
+			m := tensor.New(tensor.WithShape(2, 2), tensor.WithBacking([]float64{1, 2, 3, 4}))
+			bad := tensor.New(tensor.WithShape(2), tensor.WithBacking([]int{1, 2}))
+			badM := tensor.New(tensor.WithShape(2, 2), tensor.WithBacking([]int{1, 2, 3, 4}))
+			for _, g := range []func(){
+				func() { tensor.Dot(x, x, tensor.WithIncr(bad)) },
+				func() { tensor.Dot(x, x, tensor.WithReuse(bad)) },
+				func() { tensor.Dot(m, x, tensor.WithIncr(bad)) },
+				func() { tensor.MatMul(m, m, tensor.WithIncr(badM)) },
+				func() { tensor.MatMul(m, m, tensor.WithReuse(badM)) },
+				func() { tensor.MatVecMul(m, x, tensor.WithReuse(bad)) },
+				func() { tensor.Add(m, x, tensor.WithReuse(m)) },
+				func() { tensor.Add(m, m, tensor.WithIncr(badM)) },
+				func() { tensor.Gt(m, m, tensor.WithReuse(badM)) },
+				func() { tensor.Neg(m, tensor.WithReuse(badM)) },
+				func() { tensor.Sum(m, 5) },
+			} {
+				call(func() error { g(); return nil })
+				if dup, _ := tensor.VerifPoolDuplicates(); dup > 0 {
+					return -1, [][]int{{-998}}, true
+				}
+			}
+			return -1, nil, true
+		})
 		un("ShallowCloneReturn", func(w *c19world, t *tensor.Dense) (int, [][]int, bool) {
 			// a shallow clone shares the DATA with its source by contract; handing the clone back to the pool must not
 			// recycle anything else of the source (its pending transpose, its axes)
@@ -637,6 +667,23 @@ func c19MaskEvents(nlive int) []c19ev {
 			t.FlatNotMaskedContiguous()
 			return -1, nil, true
 		})
+		un("DotVec", func(w *c19world, t *tensor.Dense) (int, [][]int, bool) {
+			// vector . matrix works on a private shallow clone of the matrix (which shares data AND mask) and hands the
+			// clone back to the pool: the operand keeps its mask
+			if t.Dims() != 2 || t.Dtype() != tensor.Float64 {
+				return -1, nil, false
+			}
+			ones := make([]float64, t.Shape()[0])
+			for k := range ones {
+				ones[k] = 1
+			}
+			tensor.Dot(tensor.New(tensor.WithShape(len(ones)), tensor.WithBacking(ones)), t)
+			return -1, nil, true
+		})
+		un("ShallowCloneReturn", func(w *c19world, t *tensor.Dense) (int, [][]int, bool) {
+			tensor.ReturnTensor(t.ShallowClone())
+			return -1, nil, true
+		})
 	}
 	return evs
 }
@@ -829,7 +876,7 @@ func c19Explore(r *core.Run, label string, evs []c19ev, depth, maxStates int) {
 								continue
 							}
 							if len(s) == 1 && s[0] == -998 {
-								add("double-return", "a scalar header is in the header pool twice: two later scalar operands would share it")
+								add("double-return", "an object (a scalar header, an option record, ...) is in one of the library's pools twice: two later borrowers would share it")
 								continue
 							}
 							full := s[:cap(s)]
@@ -937,6 +984,9 @@ func c19Explore(r *core.Run, label string, evs []c19ev, depth, maxStates int) {
 							if bp := intsBase(s); bp != 0 && seenPtr[bp] {
 								add("pool-alias", "a caller-owned slice is in the ints free list")
 							}
+						}
+						if dup, what := tensor.VerifPoolDuplicates(); dup > 0 {
+							add("double-return", "an object of type %s is in one of the library's pools twice: two later borrowers would share it", what)
 						}
 						if _, dup := tensor.VerifHeaderPoolDup(); dup > 0 {
 							add("double-return", "a scalar header is in the header pool twice: two later scalar operands would share it")
